@@ -808,8 +808,19 @@ def str_percent(eng, a, b, node, frame):
         raise _U("% with symbolic format")
     parts = fmt.as_string().split("%s")
     items = b.items if isinstance(b, TupleVal) else [b]
-    if len(parts) != len(items) + 1:
-        raise _U("% arity")
+    if len(parts) != len(items) + 1 or "%" in "".join(parts):
+        # conversions other than %s (%f, %d, %5.2f ...): the text is an unknown string determined by the format and
+        # the arguments (an over-approximation: nothing about its characters is known)
+        f = PCT_FORMAT.get(len(items))
+        if f is None:
+            f = PCT_FORMAT[len(items)] = z3.Function(f"pct_format{len(items)}", z3.StringSort(), *([S.Val] * len(items)), z3.StringSort())
+        zargs = []
+        for it in items:
+            it = eng.to_tv(it)
+            eng.run.freeze_value(it)
+            zargs.append(it.val())
+        eng.run.assumptions_used.add("%-formatting with conversions other than %s yields an unknown string (function of format and arguments); it never raises for numbers")
+        return tv_str(f(fmt, *zargs))
     out = []
     for p, it in zip(parts, items):
         if p:
@@ -820,6 +831,7 @@ def str_percent(eng, a, b, node, frame):
     return tv_str(z3.Concat(*out) if len(out) > 1 else out[0])
 
 
+PCT_FORMAT = {}
 STR_OF_INT = z3.Function("str_of_int", z3.IntSort(), z3.StringSort())
 STR_OF_REAL = z3.Function("str_of_real", z3.RealSort(), z3.StringSort())
 STR_OF_VAL = z3.Function("str_of_val", S.Val, z3.StringSort())
@@ -1297,7 +1309,13 @@ def call_with_symbolic_star(eng, callee, star, node, frame):
         eng.run.assumptions_used.add("user-supplied callables are pure functions of their arguments")
         return tv_val(f(callee.t, lst.val()))
     if isinstance(callee, (FuncRef, Closure, BoundMethod)):
-        return call_value(eng, callee, pos + [StarArgs(star)], {}, node, frame)
+        kw = {}
+        for k in node.keywords:
+            if k.arg is None:
+                kw["**"] = eng.eval(k.value, frame)       # f(*a, **k): forwarded to the callee's **kwargs as is
+            else:
+                kw[k.arg] = eng.eval(k.value, frame)
+        return call_value(eng, callee, pos + [StarArgs(star)], kw, node, frame)
     raise _U("symbolic star call")
 
 
@@ -1484,7 +1502,7 @@ def pyobj_attr(eng, base, attr, node, frame):
                     return BoundMethod(base, attr, candidates=[([cls], fi)])
                 return FuncRef(fi)
             if r and r[0] == "attr":
-                return eng.eval(r[2], eng_frame_for(eng, r[1]))
+                return eng.class_attr_value(r[1], attr, r[2])
         if attr == "__name__":
             return tv_str(cls.name)
         raise _U(f"class attribute {cls.name}.{attr}")
